@@ -32,10 +32,34 @@ impl ExecStmt {
             final(self).trace@ == old(self).trace@.push(MEvent::in_place(*p, *m, *param, r)),
     { unimplemented!() }
 }
+impl ExecStmt {
+    /// `self.raw_writer(|v| match r.direction { .. }).visit_expression(&r.operand).unwrap().0`: the rounding closure
+    /// (rounding_table in unit exec_glue) applied to the place the operand denotes (write path: unit write_val)
+    #[verifier::external_body]
+    pub fn round_in_place(&mut self, r: &Rounding) -> (res: Result<(), RuntimeError>)
+        ensures final(self).control_flow_state == old(self).control_flow_state, final(self).return_val == old(self).return_val,
+            final(self).trace@ == old(self).trace@.push(MEvent::round(*r, res)),
+    { unimplemented!() }
+}
+/// what the closure literal of visit_mutation computes, as proved of its body (mutation_table in unit exec_glue)
+pub open spec fn mut_table(op: MutationOperator, v: Val, p: Option<Val>) -> (Val, Result<(), ValError>) {
+    match op {
+        MutationOperator::Cut => sp_split(v, p),
+        MutationOperator::Join => sp_join(v, p),
+        MutationOperator::Cast => sp_cast(v, p),
+    }
+}
+pub open spec fn is_table_of(f: Mutator, m: Mutation) -> bool {
+    forall|v: Val, p: Option<Val>| #[trigger] f.apply(v, p) == mut_table(m.operator, v, p)
+}
+/// the closure literal `|val, param| match m.operator { .. }` of visit_mutation, passed to mutation_helper as its `M`
+#[verifier::external_body]
+pub fn mutator_of(m: &Mutation) -> (f: Mutator) ensures is_table_of(f, *m) { unimplemented!() }
 pub struct MEvent;
 impl MEvent {
     pub uninterp spec fn read(p: PrimaryExpression, r: Result<Val, RuntimeError>) -> Event;
     pub uninterp spec fn in_place(p: PrimaryExpression, m: Mutator, param: Option<Val>, r: Result<(), RuntimeError>) -> Event;
+    pub uninterp spec fn round(r: Rounding, res: Result<(), RuntimeError>) -> Event;
 }
 
 pub open spec fn mutation_protocol(m: Mutation, f: Mutator, old: Seq<Event>, new: Seq<Event>, r: Result<(), RuntimeError>) -> bool {
